@@ -1,0 +1,33 @@
+//go:build verif
+
+package builder
+
+// Machine-checked contracts for the govc verifier (/verif). This file is comment-only and is
+// compiled only with the "verif" build tag.
+
+//@ props C02 C08
+
+//@ func data/builder.mkmask
+//@ requires 0 <= n && n <= 8
+//@ ensures result == byte((1 << n) - 1)
+//@ assigns nothing
+
+//@ func (data/builder.hashBits).slice
+//@ requires 1 <= width && width <= 62
+//@ requires 0 <= offset && offset <= len(hb)*8 && offset + width <= len(hb)*8
+//@ ensures msb-first: isBits(result, hb, offset, width)
+//@ inst msb-first: k: k - (8 - offset % 8)
+//@ assigns nothing
+//@ decreases width
+
+//@ func (data/builder.hashBits).Slice
+//@ requires 1 <= width && width <= 62
+//@ requires 0 <= offset && offset <= len(hb)*8
+//@ ensures err == nil ==> isBits(result, hb, offset, width)
+//@ ensures err == nil <==> offset + width <= len(hb)*8
+//@ assigns nothing
+
+//@ func data/builder.logtwo
+//@ ensures err == nil ==> 0 <= result && result < 63 && (1 << result) == v
+//@ ensures err == nil <==> (v > 0 && (v & (v - 1)) == 0)
+//@ assigns nothing
